@@ -27,10 +27,12 @@ type Graph struct {
 	factsPSCache *Solution[FactsPS]
 
 	// inlined graphs (inline.go): every location of a node (helpers expanded at several call sites), what was expanded
-	nodeAll   map[ast.Node][]nodeLoc
-	inl       *inlineInfo
-	deadEdges map[*cfg.Block][]bool
-	boolOver  map[string][]string
+	nodeAll     map[ast.Node][]nodeLoc
+	inl         *inlineInfo
+	deadEdges   map[*cfg.Block][]bool
+	boolOver    map[string][]string
+	markNodes   map[ast.Node]string // statements that leave a mark atom ("§name") in the guard facts when executed
+	unmarkNodes map[ast.Node]string // nodes (loop conditions) at which such a mark is forgotten
 }
 
 type nodeLoc struct {
